@@ -307,3 +307,101 @@ func tagChainSweep(prop, name string, tier string, snapshot bool) *SeqJob {
 }
 
 var _ = time.Second
+
+// scopesPerRegistrySweep (C07): n subscopes under one root with 4 registry shards, every n from 1 to N: record on
+// all, close every second one, pass, re-obtain the closed ones and record on them again (and on the others), pass:
+// per identity exactly what was recorded is delivered, and re-obtained scopes are fresh objects that stay registered.
+func scopesPerRegistrySweep(tier string) *SeqJob {
+	maxN := tierInt(tier, 70, 300)
+	run := func(n int, cached bool, shards uint) (string, string, int) {
+		rec := &Recorder{NoPoints: true}
+		root, _ := tally.VerifNewRootScope(scopeOpts(rec, cached, false), 0, shards)
+		tags := func(i int) map[string]string { return map[string]string{"id": fmt.Sprintf("%03d", i)} }
+		want := map[string]int64{}
+		scopes := make([]tally.Scope, n)
+		steps := 0
+		for i := range scopes {
+			scopes[i] = root.Tagged(tags(i))
+			scopes[i].Counter("c").Inc(int64(i + 1))
+			want["c"+tagString(tags(i))] += int64(i + 1)
+			steps += 2
+		}
+		for i := 0; i < n; i += 2 {
+			closeScope(scopes[i])
+			steps++
+		}
+		if n%3 != 0 { // with and without a pass between Close and the re-request
+			tally.VerifReportOnce(root)
+			steps++
+		}
+		for i := range scopes {
+			s := root.Tagged(tags(i))
+			steps++
+			if i%2 == 0 {
+				if s == scopes[i] || tally.VerifIsNoop(s) {
+					return "closed-scope-handed-out", fmt.Sprintf("%d scopes, %d shards: scope %d was closed; asking for it again returned the closed object or the inert scope", n, shards, i), steps
+				}
+			} else if s != scopes[i] {
+				return "live-scope-not-shared", fmt.Sprintf("%d scopes, %d shards: scope %d is live; asking for it again returned another object", n, shards, i), steps
+			}
+			s.Counter("c").Inc(1000)
+			want["c"+tagString(tags(i))] += 1000
+			scopes[i] = s
+		}
+		tally.VerifReportOnce(root)
+		for i := range scopes {
+			scopes[i].Counter("c").Inc(7)
+			want["c"+tagString(tags(i))] += 7
+		}
+		tally.VerifReportOnce(root)
+		steps += n + 2
+		got := sumCounters(rec.Log, 0, len(rec.Log))
+		for id, w := range want {
+			if got[id] != w {
+				return "recorded-before-close-not-delivered-exactly-once", fmt.Sprintf("%d scopes under one root (%d shards, %s reporter): %s recorded %d, delivered %d", n, shards, b2s(cached), id, w, got[id]), steps
+			}
+		}
+		return "", "", steps
+	}
+	j := &SeqJob{Property: "C07", Name: "size-sweep-scopes-per-registry", Shards: 4}
+	j.Run = func(ctx *SeqCtx) {
+		k := 0
+		for n := 1; n <= maxN; n++ {
+			for _, cached := range []bool{true, false} {
+				for _, shards := range []uint{1, 4} {
+					k++
+					if !ctx.Mine(k) {
+						continue
+					}
+					if ctx.Expired() {
+						return
+					}
+					n, cached, shards := n, cached, shards
+					steps := 0
+					cl, det := guard(func() (string, string) { a, b, s := run(n, cached, shards); steps = s; return a, b })
+					ops := []string{fmt.Sprint(n), fmt.Sprint(cached), fmt.Sprint(shards)}
+					ctx.Case(steps, true, func() string { return fmt.Sprint("scopes per registry ", ops) })
+					ctx.State(fmt.Sprint(ops))
+					if cl != "" {
+						ctx.Fail(cl, det, ops)
+						if ctx.viol != nil {
+							return
+						}
+					}
+				}
+			}
+		}
+		ctx.Alphabet(fmt.Sprintf("every number of subscopes under one root from 1 to %d", maxN), "1 and 4 registry shards", "plain and cached reporter")
+		ctx.DepthDone(maxN)
+	}
+	j.Replay = func(ops []string) (string, string) {
+		var n int
+		var cached bool
+		var shards uint
+		fmt.Sscan(ops[0], &n)
+		fmt.Sscan(ops[1], &cached)
+		fmt.Sscan(ops[2], &shards)
+		return guard(func() (string, string) { a, b, _ := run(n, cached, shards); return a, b })
+	}
+	return j
+}
